@@ -60,9 +60,20 @@ impl TryFrom<CompressionWithLevel> for Compressor {
         match value {
             CompressionWithLevel::None => Ok(Compressor::None(Vec::new())),
             #[cfg(feature = "gzip-compression")]
-            CompressionWithLevel::Gzip(level) => Ok(Compressor::Gzip(
-                flate2::write::GzEncoder::new(Vec::new(), flate2::Compression::new(level)),
-            )),
+            CompressionWithLevel::Gzip(level) => {
+                // flate2 checks the level with a debug assertion only
+                if level > 9 {
+                    return Err(io::Error::new(
+                        io::ErrorKind::InvalidInput,
+                        format!("gzip compression level {level} is out of range (0 - 9)"),
+                    )
+                    .into());
+                }
+                Ok(Compressor::Gzip(flate2::write::GzEncoder::new(
+                    Vec::new(),
+                    flate2::Compression::new(level),
+                )))
+            }
             #[cfg(feature = "zstd-compression")]
             CompressionWithLevel::Zstd(level) => {
                 #[cfg_attr(not(feature = "zstdmt"), allow(unused_mut))]
